@@ -45,11 +45,33 @@ def gen_rcb():
                   "if weight_left < weight_right { min = split_target; } else { max = split_target; }"]:
             if not has(p):
                 raise Fail("par_rcb_split: expected `%s`" % p)
+    # the three f64 -> f32 casts (coordinates in rcb, the two bounds in rcb_recurse): all plain or all clamped
+    src_all = re.sub(r"//[^\n]*", "", read(rel))
+    rec = fn_body(src_all, "rcb_recurse")
+    top = fn_body(src_all, "rcb")
+    if rec is None or top is None:
+        raise Fail("fn rcb_recurse / fn rcb not found")
+    rec1 = re.sub(r"\s+", " ", rec)
+    top1 = re.sub(r"\s+", " ", top)
+    plain = ["let min = bb.p_min[coord] as f32;" in rec1, "let max = bb.p_max[coord] as f32;" in rec1,
+             ".map(|point| point[coord] as f32)" in top1]
+    clamped = ["let min = (bb.p_min[coord] as f32).clamp(f32::MIN, f32::MAX);" in rec1,
+               "let max = (bb.p_max[coord] as f32).clamp(f32::MIN, f32::MAX);" in rec1,
+               ".map(|point| (point[coord] as f32).clamp(f32::MIN, f32::MAX))" in top1]
+    if all(plain) and not any(clamped):
+        clamp_cast = False
+    elif all(clamped) and not any(plain):
+        clamp_cast = True
+    else:
+        raise Fail("rcb / rcb_recurse: the three `as f32` casts are neither all plain nor all clamped to [f32::MIN, f32::MAX]")
+    if (rec1 + top1).count(" as f32") != 3:
+        raise Fail("rcb / rcb_recurse: expected exactly three `as f32` casts")
     out = HEADER.format(src=rel)
     out += "Definition rcb_old_rules : bool := %s.\n" % coq_bool(old)
     out += "Definition rcb_by_coord : bool := %s.\n" % coq_bool(by_coord)
     out += "Definition rcb_probe_max : bool := %s.\n" % coq_bool(probe_max)
     out += "Definition rcb_safe_mid : bool := %s.\n" % coq_bool(safe_mid)
+    out += "Definition rcb_clamp_cast : bool := %s.\n" % coq_bool(clamp_cast)
     return out
 
 
@@ -92,6 +114,11 @@ PROP = dict(
         "finite); the former premise box_ok32 is proved from it (C03_box_ok32_holds, monotone f64->f32 cast, Flocq) and still evaluated on "
         "every in-contract case by the run glue as a cross-check; its fuel bound 2^33 is a termination bound, not a tight one (the runs use "
         "fuel 2000 and never met OutOfFuel)",
+        "C03_rcb_total_finite_f64 / C03_rcb_bisect_tree_finite_f64 cover the whole contract `finite f64 coordinates`, for the clamped cast of the "
+        "current source (flag rcb_clamp_cast, read by the translator) and for the plain cast (images +-inf): termination, totality, one id per "
+        "point, ids < 2^iter_count, tree structure; fuel bound 2^34 (termination bound, not tight)",
+        "the statements and the certified checker speak of the binary32 coordinates clamped to [f32::MIN, f32::MAX] (to32c); on coordinates "
+        "whose image is finite this is the plain image (to32)",
         "the C03 theorems require the binary32 image of every coordinate not to be NaN (true of every finite f64; checked per case by the run glue)",
     ],
 )
